@@ -384,6 +384,41 @@ def gen_stall(rng, big: bool) -> Case:
     return Case(ops=ops, tag="stall")
 
 
+def gen_stall_close(rng, variant: int = -1) -> Case:
+    """a bridge side leaves while the relay still holds undelivered bytes for the other, stalled, side; then the stalled
+    side resumes / never resumes / leaves too — every order and every kind of disconnect"""
+    nl = b"\n"
+    tid = rng.randrange(3)
+    slow = rng.choice([1, 2])
+    fast = 3 - slow
+    kinds = ["eof", "shw", "rst", "hup"]
+    ops = ["accs 1", "accs 2",
+           snd(1, b"REGISTER " + peer_hex(tid).encode() + nl),
+           snd(2, b"CONNECT " + peer_hex(6).encode() + b" " + peer_hex(tid).encode() + nl),
+           snd(2, rand_bytes(rng, 32)),
+           f"stall {slow}",
+           f"snd {fast} {bulk_payload(rng, rng.choice([30000, 70000, 131072, 200000]))}"]
+    if rng.random() < 0.3:
+        ops.append(f"snd {slow} {data_payload(rng, big_ok=False)}")
+    v = variant if variant >= 0 else rng.randrange(6)
+    leave_fast = f"{rng.choice(kinds)} {fast}"
+    leave_slow = f"{rng.choice(kinds)} {slow}"
+    if v == 0:      # the fast side leaves, the slow one resumes and then leaves
+        ops += [leave_fast, f"resume {slow}", leave_slow]
+    elif v == 1:    # the fast side leaves, the slow one never resumes and never leaves by itself
+        ops += [leave_fast, "nop"]
+    elif v == 2:    # the fast side leaves, the slow one leaves without ever reading
+        ops += [leave_fast, leave_slow]
+    elif v == 3:    # the slow side leaves first (its backlog is dropped), then the fast one
+        ops += [leave_slow, leave_fast]
+    elif v == 4:    # the fast side leaves, the slow one resumes, talks on, leaves
+        ops += [leave_fast, f"resume {slow}", snd(slow, b"anyone?\n"), leave_slow]
+    else:           # resume first (backlog delivered), then both leave in either order
+        ops += [f"resume {slow}"] + (rng.sample([leave_fast, leave_slow], 2))
+    ops.append("nop")
+    return Case(ops=ops, tag=f"stall-close/{v}")
+
+
 def leave_op(rng, k: int) -> str:
     return f"{rng.choice(['eof', 'eof', 'eof', 'shw', 'rst', 'hup'])} {k}"
 
@@ -554,8 +589,10 @@ def generate(ctx, budget):
             cases.append(gen_pairing(ctx.rng, ctx.rng.choice(PAIRING_SHAPES), thorough and i % 5 == 0))
         elif r < 0.85:
             cases.append(gen_burst(ctx.rng, thorough))
-        elif r < 0.90:
+        elif r < 0.89:
             cases.append(gen_stall(ctx.rng, thorough and i % 40 == 0))
+        elif r < 0.92:
+            cases.append(gen_stall_close(ctx.rng))
         else:
             cases.append(gen_malformed(ctx.rng, thorough and i % 5 == 0))
     if thorough:
